@@ -165,6 +165,9 @@ impl<S: Service + 'static> PsSvc for RPsSvc<S> {
         if let Some(v) = cfg.max_slice_len {
             b = b.initial_max_slice_len(v);
         }
+        if cfg.discard {
+            b = b.backpressure_strategy(iceoryx2::prelude::BackpressureStrategy::DiscardData);
+        }
         if let Some(v) = cfg.alloc {
             b = b.allocation_strategy(match v {
                 0 => AllocationStrategy::Static,
